@@ -186,3 +186,96 @@ Theorem C08_example_creation :
   held (q_net (fst (fst (cmd_epr_keep 0 ok_start [0; 1] 1 true 0 [])))) 1 = 1.
 Proof. exact ex_create_ok. Qed.
 Print Assumptions C08_example_creation.
+
+(* ---- measure-directly requests as actions of the N-host network model (Qasm/EprGate.v cmd_epr_measure, Qasm/EprMeasureNode.v,
+   Qasm/TeardownNet.v ACreateM, Qasm/EprMeasure.v) --------------------------------------------------------------------------------
+   The finite table C08_md_outcomes above speaks about the tableau bell_tab; the theorems below connect it to the code path:
+   the native calls cmd_epr issues for ONE pair of a measure-directly request, started in ANY network state that satisfies the
+   global invariant (so: after any history of instructions, pair requests of both types, polls and stops on N hosts), at any
+   node, with any sampled bases (Z / X / Y; rotations 0) and any coins. *)
+From SQ Require Import Net.InvStep Qasm.TeardownFull Qasm.EprFailNode Qasm.EprMeasureNode Qasm.TeardownNet Qasm.TeardownNetExamples Qasm.EprMeasure.
+
+(* Model V, call by call: both creations accepted => every further call succeeds; after the CNOT the two temporaries are the
+   only qubits of ONE register of the creating node whose tableau is |Phi+>'s (bell_tab: nothing else is in that register, so
+   the pair is entangled with nothing else); the two destructive measurements return md_outcomes bl br c1 c2; afterwards the
+   network is what it was, up to the handle counter and the node's register-number counter *)
+Theorem C08_md_native_calls : forall i s s1 s2 v1 v2 bl br c1 c2,
+  ginv s -> step s (ONew i) = (s1, Ok v1) -> step s1 (ONew i) = (s2, Ok v2) ->
+  let a1 := next_hid s in let a2 := S (next_hid s) in
+  let o := md_outcomes bl br c1 c2 in
+  exists s3 s4 s5 s6 s7,
+    step s2 (OGate1 a1 NH) = (s3, OkNone) /\ step s3 (OGate2 a1 a2 NCnot) = (s4, OkNone) /\
+    match basis_g1 bl with None => s5 = s4 | Some g => step s4 (OGate1 a1 g) = (s5, OkNone) end /\
+    step s5 (OMeas a1 false c1) = (s6, Ok (b2n (fst o))) /\
+    match basis_g1 br with None => s7 = s6 | Some g => step s6 (OGate1 a2 g) = (s7, OkNone) end /\
+    step s7 (OMeas a2 false c2) = (mkNet (upd (nodes s) i (bump (nth_node s i) 2)) (S (S (next_hid s))), Ok (b2n (snd o))) /\
+    next_hid s1 = a2 /\ next_hid s2 = S a2 /\
+    ginv (mkNet (upd (nodes s) i (bump (nth_node s i) 2)) (S (S (next_hid s)))) /\
+    exists sn1 sn2, nth_node s4 i = ext2m i (nth_node s i) a1 v1 sn1 a2 v2 sn2 (nextReg (nth_node s i)) 11 bell_tab 2.
+Proof. exact md_steps. Qed.
+Print Assumptions C08_md_native_calls.
+
+Theorem C08_md_temporaries : forall i s v1 v2 bl br c1 c2,
+  ginv s -> snd (step s (ONew i)) = Ok v1 -> snd (step (fst (step s (ONew i))) (ONew i)) = Ok v2 ->
+  let ops := md_ops i (next_hid s) (S (next_hid s)) bl br c1 c2 in
+  let o := md_outcomes bl br c1 c2 in
+  run s ops = mkNet (upd (nodes s) i (bump (nth_node s i) 2)) (S (S (next_hid s))) /\
+  run_outs s ops = [Ok v1; Ok v2; OkNone; OkNone] ++ basis_outs bl ++ [Ok (b2n (fst o))] ++ basis_outs br ++ [Ok (b2n (snd o))] /\
+  (let '(o1, o2) := o in phi_plus_possible bl br o1 o2) = true.
+Proof. exact md_temps_restored. Qed.
+Print Assumptions C08_md_temporaries.
+
+(* the request as an action of the N-host model: in every state satisfying the global invariant (C11_net_invariant_reachable:
+   after every clean history), a measure-directly request of one pair that completes reports -- in the creator's ReturnArray
+   record and in the record queued for the peer -- the outcomes md_outcomes bl br c1 c2 of the table for the sampled bases and
+   coins, which are possible for |Phi+>; the two records carry the same sequence number, directionality 0 / 1, name each other
+   as remote node and carry the local / remote socket id as purpose id; the native calls are exactly md_ops; and the request was
+   allowed by the three checks *)
+Theorem C08_md_request_outcomes : forall s i known r adj lsock rsock seq bl br c1 c2 coins,
+  ninv s -> i < length (n_hosts s) ->
+  let x := ACreateM i known r adj lsock rsock seq bl br c1 c2 coins in
+  snd (nstep_r s x) = RDone None ->
+  let o := md_outcomes bl br c1 c2 in
+  let rc := mkMrec (b2n (fst o)) bl seq 0 r lsock in
+  let rr := mkMrec (b2n (snd o)) br seq 1 i rsock in
+  phi_plus_possible bl br (fst o) (snd o) = true /\
+  act_records s x = [(i, rc)] /\
+  n_pend (nstep s x) = n_pend s ++ [DM r rsock rr] /\
+  tops (snd (fst (create_m s i known r adj lsock rsock seq bl br c1 c2 coins))) =
+    md_ops i (next_hid (n_net s)) (S (next_hid (n_net s))) bl br c1 c2 /\
+  In r known /\ r <> i /\ adj = true.
+Proof. exact md_request_outcomes. Qed.
+Print Assumptions C08_md_request_outcomes.
+
+(* the receiver's poll of a deque whose head is an outcome record: the record is popped (it was the first entry of that
+   node's deque for that socket) and returned; no qubit is mapped, the network is untouched *)
+Theorem C08_md_record_poll : forall s i app a sock nd sk rec pd',
+  i < length (n_hosts s) -> take_pend i sock (n_pend s) = Some (DM nd sk rec, pd') ->
+  nstep_r s (ARecv i app a sock) =
+    (mkN (n_net s) (upd (n_hosts s) i (keep_used (host_at s i) (fresh_id (h_used (host_at s i))))) pd', RDone None) /\
+  act_records s (ARecv i app a sock) = [(i, rec)] /\ halves pd' = halves (n_pend s) /\
+  exists l1 l2, n_pend s = l1 ++ DM nd sk rec :: l2 /\ pd' = l1 ++ l2 /\ nd = i /\ sk = sock /\
+                forall e, In e l1 -> ~ (d_node e = i /\ d_sock e = sock).
+Proof. exact md_record_poll. Qed.
+Print Assumptions C08_md_record_poll.
+
+(* non-vacuity: two hosts; a measure-directly request with sampled bases (X, Z) and coins (1, 0), then a create-and-keep
+   request on the same sockets (its half waits BEHIND the record in one deque), two polls, two stops: the history is clean, every
+   action completes, the records are the table's, nothing is left *)
+Theorem C08_md_example :
+  cleans (ninit caps2) md_history /\
+  nrun_res (ninit caps2) md_history = [RDone None; RDone None; RDone None; RDone None; RDone None; RDone None; RDone None; RDone None] /\
+  md_outcomes BX BZ true false = (true, false) /\
+  nrun_records (ninit caps2) md_history = [(0, mkMrec 1 BX 0 0 1 0); (1, mkMrec 0 BZ 0 1 0 0)] /\
+  populations (nrun (ninit caps2) (firstn 3 md_history)) = [(0, 0, 0, 0); (0, 0, 0, 0)] /\
+  n_pend (nrun (ninit caps2) (firstn 3 md_history)) = [DM 1 0 (mkMrec 0 BZ 0 1 0 0)] /\
+  map h_used (n_hosts (nrun (ninit caps2) (firstn 3 md_history))) = [[0]; []] /\
+  map d_node (n_pend (nrun (ninit caps2) (firstn 4 md_history))) = [1; 1] /\
+  halves (n_pend (nrun (ninit caps2) (firstn 4 md_history))) = [(1, 0, 0, 4)] /\
+  map h_qlist (n_hosts (nrun (ninit caps2) (firstn 5 md_history))) = [[(PP 1, 2)]; []] /\
+  map h_qlist (n_hosts (nrun (ninit caps2) (firstn 6 md_history))) = [[(PP 1, 2)]; [(PP 1, 4)]] /\
+  populations (nrun (ninit caps2) (firstn 6 md_history)) = [(1, 2, 1, 1); (1, 0, 0, 0)] /\
+  populations (nrun (ninit caps2) md_history) = [(0, 0, 0, 0); (0, 0, 0, 0)] /\
+  n_pend (nrun (ninit caps2) md_history) = [].
+Proof. exact md_example. Qed.
+Print Assumptions C08_md_example.
